@@ -251,7 +251,7 @@ package text
 //@   assigns nothing
 
 //@ -- ------------------------------------------------------------------ file
-//@ props C11,C09,C12,C06
+//@ props C11,C09,C12,C06,C02
 
 //@ -- the text obtained by replacing every non-overlapping occurrence of `old` in `s` by `new` (bytes.Replace with n < 0)
 //@ abstract func replaceAll(s string, old string, new string) string
@@ -287,7 +287,7 @@ package text
 //@   assigns  nothing
 //@ -- ReadFile: every call builds its own File (nothing is shared between callers: C14)
 //@ func ReadFile(filename string) (f *File, err error)
-//@   props C11,C14
+//@   props C11,C14,C02
 //@   ensures  (f == nil) != (err == nil)
 //@   ensures  [own-file;C14] f != nil ==> fresh(f) && wfFile(f) && f.offset == 1 && f.lines == nil && f.filename == filename
 //@   logs ioutil.ReadFile, os.ReadFile
